@@ -6,6 +6,7 @@ package main
 import (
 	"fmt"
 	"go/token"
+	"go/types"
 	"strings"
 
 	"golang.org/x/tools/go/ssa"
@@ -674,7 +675,7 @@ func runC12(w *World, r *Report) {
 					allOK := true
 					n := 0
 					for _, caller := range w.RepoFuncs("gossip") {
-						for _, c := range callsTo(caller, fn.Object().(interface{ FullName() string }).FullName()) {
+						for _, c := range callsTo(caller, refFuncFullName(fn.Object().(*types.Func))) {
 							n++
 							_, a := callArgs(c)
 							idx := -1
@@ -745,7 +746,7 @@ func verifiedSetValue(w *World, v ssa.Value, fn *ssa.Function, depth int) bool {
 				break
 			}
 			for _, caller := range w.RepoFuncs("gossip") {
-				for _, c := range callsTo(caller, fn.Object().(interface{ FullName() string }).FullName()) {
+				for _, c := range callsTo(caller, refFuncFullName(fn.Object().(*types.Func))) {
 					calls++
 					if idx >= len(c.Common().Args) || !verifiedSetValue(w, c.Common().Args[idx], caller, depth+1) {
 						ok = false
